@@ -91,6 +91,7 @@ pub fn dir_case(rng: &mut Rng, cfg: &str, o: &DirOpts, out: &mut Vec<String>) {
     }
     // current values as the generator believes them (for re-submissions)
     let mut current: Vec<Option<Vec<u8>>> = vec![None; pool.len()];
+    let mut past: Vec<Vec<Vec<u8>>> = vec![vec![]; pool.len()];
     let mut last_update: Vec<usize> = vec![0; pool.len()];
     let mut nver: Vec<u64> = vec![0; pool.len()];
     let mut epoch = 0usize;
@@ -114,7 +115,15 @@ pub fn dir_case(rng: &mut Rng, cfg: &str, o: &DirOpts, out: &mut Vec<String>) {
         let mut changed = false;
         for i in idx {
             let resubmit = current[i].is_some() && rng.chance(3, 10) && !(o.hot_user && i == 0);
-            let v = if resubmit { current[i].clone().unwrap() } else { value(rng) };
+            // now and then a value the label carried BEFORE (A -> B -> A): a new version with an old value
+            let earlier: Vec<Vec<u8>> = past[i].iter().filter(|x| Some(*x) != current[i].as_ref()).cloned().collect();
+            let v = if resubmit {
+                current[i].clone().unwrap()
+            } else if !earlier.is_empty() && rng.chance(1, 6) {
+                earlier[rng.below(earlier.len() as u64) as usize].clone()
+            } else {
+                value(rng)
+            };
             if current[i].as_ref() != Some(&v) {
                 changed = true;
             }
@@ -158,6 +167,9 @@ pub fn dir_case(rng: &mut Rng, cfg: &str, o: &DirOpts, out: &mut Vec<String>) {
                     nver[*i] += 1;
                 }
                 current[*i] = Some(v.clone());
+                if !past[*i].contains(v) {
+                    past[*i].push(v.clone());
+                }
                 if !published.contains(i) {
                     published.push(*i);
                 }
